@@ -33,7 +33,7 @@ pub fn tiny_scenario(prop: &str, seed: u64) -> Scenario {
     let n = rng.usize_in(3, 7);
     let mix = OpMix::swarm(&mut rng, n);
     let (p, ops, t) = gen_history(&mut rng, &cfg, &mix);
-    Scenario { property: prop.to_string(), seed, profile: format!("miri-tiny-{}", p), config: cfg, signal: gen_signal(&mut rng), ops, twin: Twin::None, sim_seconds: t }
+    Scenario { property: prop.to_string(), seed, profile: format!("miri-tiny-{}", p), config: cfg, signal: gen_signal(&mut rng), ops, twin: Twin::None, sim_seconds: t, repeat: 0 }
 }
 
 fn run_one(sc: &Scenario) -> Vec<String> {
